@@ -210,7 +210,9 @@ class SStr(SSeq):
         r = self.__eq__(other)
         return r if r is NotImplemented else ~r
 
-    __hash__ = None
+    def __hash__(self):
+        # dict/set membership of a symbolic string: enumerate its feasible values (forks), then hash the concrete text
+        return hash("".join(chr(concretize(c)) for c in self._d))
 
     def __add__(self, o): return SStr._mk(self._d + list(SStr(o)._d if isinstance(o, str) else o._d))
     def __radd__(self, o): return SStr._mk(list(SStr(o)._d) + self._d)
@@ -372,7 +374,8 @@ def sym_float(x=0.0):
                 continue
             if not _b((c >= 48) & (c <= 57)):
                 if _in(c, (43, 45, 69, 101, 95, 73, 105, 78, 110)):   # sign, exponent, underscore, inf/nan letters
-                    raise EngineLimit("float literal syntax outside the model")
+                    # literal syntax outside the decimal model: enumerate the feasible texts (forks) and let the real float() decide
+                    return float("".join(chr(concretize(ch)) for ch in d))
                 raise ValueError("could not convert string to float")
             num = num * 10 + (c - 48)
             ndig += 1
